@@ -88,7 +88,18 @@ func (x *Exec) call(fr *frame, s *State, in *ssa.Call) {
 		args[i] = x.operand(fr, s, a)
 	}
 	fnv := x.operand(fr, s, c.Value)
-	res := x.callCommon(fr, s, c, fnv, args, in, in.Pos())
+	var res []Value
+	if sc := c.StaticCallee(); sc != nil && x.E.fnKey(sc) == "binary.Read" {
+		r, ok := x.binaryReadModel(fr, s, in)
+		if !ok {
+			// the loop havoc set (modelEffect) relies on the model; no silent fallback
+			unsup("binary.Read outside the modelled pattern (reader created by bytes.NewReader for this one call, fixed-size integer target)")
+		}
+		res = r
+	}
+	if res == nil {
+		res = x.callCommon(fr, s, c, fnv, args, in, in.Pos())
+	}
 	if s.Reach.S == "false" {
 		return
 	}
